@@ -257,15 +257,17 @@ def m_need_update_shortcut(sources):
 
 
 def m_evaluator_cache(sources):
-    S = _in_function('evaluate')
-
-    class T(S):
-        def on_function(self, n):
-            pre = ast.parse('if addr in self._memo:\n    return self._memo[addr]').body[0]
-            n.body.insert(1, pre)
-            self.hits += 1
-            return n
-    return _edit(sources, 'evaluator.py', T)
+    """A coherent evaluator-level memo of computed values that nothing ever clears."""
+    path = next((p for p in sources if p.endswith('evaluator.py')), None)
+    edits = [("        self._eval_stack = []\n", "        self._eval_stack = []\n        self._memo = {}\n"),
+             ("        cell = self.model.cells[addr]\n", "        cell = self.model.cells[addr]\n        if addr in self._memo:\n            return self._memo[addr]\n"),
+             ("        cell.need_update = False\n", "        cell.need_update = False\n        self._memo[addr] = value\n")]
+    if path is None or any(old not in sources[path] for old, _ in edits):
+        raise NotApplicable('text anchors of the evaluator memo not found')
+    for old, new_ in edits:
+        sources[path] = sources[path].replace(old, new_, 1)
+    ast.parse(sources[path])
+    return sources
 
 
 def m_set_value_on_name_object(sources):
